@@ -119,9 +119,11 @@ func TestVerifC28_Upload(t *testing.T) {
 				rt.Fatalf("HARNESS: %v", err)
 			}
 		}
+		lex := rapid.Bool().Draw(rt, "lexicographicListing")
 		sc := vScenario{
-			Name:    fmt.Sprintf("upload %s %s other=%v", b.render(), optStr, withOther),
+			Name:    fmt.Sprintf("upload %s %s other=%v lex=%v", b.render(), optStr, withOther, lex),
 			Segs:    b.Segments,
+			Lex:     lex,
 			Initial: initial,
 			Run: func(ctx context.Context, bkt objstore.Bucket, _ any) error {
 				return block.Upload(ctx, c28Logger, bkt, b.Dir, hf, opts...)
@@ -194,9 +196,11 @@ func TestVerifC28_Delete(t *testing.T) {
 			started[b.ID] = true
 		}
 		counter := prometheus.NewCounter(prometheus.CounterOpts{Name: "c28_marked"})
+		lex := rapid.Bool().Draw(rt, "lexicographicListing")
 		sc := vScenario{
-			Name:    fmt.Sprintf("delete mode=%s partial=%v extras=%v %s other=%v", mode, partial, extras, b.render(), withOther),
+			Name:    fmt.Sprintf("delete mode=%s partial=%v extras=%v %s other=%v lex=%v", mode, partial, extras, b.render(), withOther, lex),
 			Segs:    b.Segments,
+			Lex:     lex,
 			Initial: initial,
 			Started: started,
 			Run: func(ctx context.Context, bkt objstore.Bucket, _ any) error {
@@ -260,9 +264,11 @@ func TestVerifC28_Shipper(t *testing.T) {
 		ooo := rapid.Bool().Draw(rt, "allowOutOfOrder")
 		lset := labels.FromStrings("ext", "1")
 		runs := 0
+		lex := rapid.Bool().Draw(rt, "lexicographicListing")
 		sc := vScenario{
-			Name:    fmt.Sprintf("shipper [%s] hash=%q conc=%d compacted=%v ooo=%v", strings.Join(names, ", "), string(hf), conc, uploadCompacted, ooo),
+			Name:    fmt.Sprintf("shipper [%s] hash=%q conc=%d compacted=%v ooo=%v lex=%v", strings.Join(names, ", "), string(hf), conc, uploadCompacted, ooo, lex),
 			Segs:    segs,
+			Lex:     lex,
 			Initial: map[string][]byte{},
 			NewLocal: func() (any, error) {
 				runs++
